@@ -637,6 +637,67 @@ impl<VM: VMBinding> GCTriggerPolicy<VM> for MemBalancerTrigger {
         self.current_heap_pages.load(Ordering::Relaxed) < self.max_heap_pages
     }
 }
+/// Verification hooks: build a trigger and run the real limit computation from plain numbers
+/// (the statistics struct holds `Instant`s, which are never read by the computation).
+#[cfg(mmtk_verif)]
+impl MemBalancerTrigger {
+    pub fn verif_new(min_heap_pages: usize, max_heap_pages: usize) -> Self {
+        // SAFETY: an all-zero `Instant` is a valid value on this target; it is never read.
+        let zero_instant: Instant = unsafe { std::mem::zeroed() };
+        Self {
+            min_heap_pages,
+            max_heap_pages,
+            pending_pages: AtomicUsize::new(0),
+            current_heap_pages: AtomicUsize::new(min_heap_pages),
+            stats: AtomicRefCell::new(MemBalancerStats {
+                allocation_pages_prev: None,
+                allocation_time_prev: None,
+                collection_pages_prev: None,
+                collection_time_prev: None,
+                allocation_pages: 0f64,
+                allocation_time: 0f64,
+                collection_pages: 0f64,
+                collection_time: 0f64,
+                gc_start_time: zero_instant,
+                gc_end_time: zero_instant,
+                gc_release_live_pages: 0,
+                gc_end_live_pages: 0,
+            }),
+        }
+    }
+    /// Set the smoothing state (`*_prev`) left by earlier collections.
+    pub fn verif_set_prev(&self, prev: [Option<f64>; 4]) {
+        self.access_stats(|stats| {
+            stats.allocation_pages_prev = prev[0];
+            stats.allocation_time_prev = prev[1];
+            stats.collection_pages_prev = prev[2];
+            stats.collection_time_prev = prev[3];
+        });
+    }
+    /// One collection: install this collection's statistics and run the real computation.
+    pub fn verif_step(&self, live: usize, extra_reserve: usize, cur: [f64; 4]) {
+        self.access_stats(|stats| {
+            stats.allocation_pages = cur[0];
+            stats.allocation_time = cur[1];
+            stats.collection_pages = cur[2];
+            stats.collection_time = cur[3];
+            self.compute_new_heap_limit(live, extra_reserve, stats);
+        });
+    }
+    /// (current heap size, max heap size, can grow) through the real trait methods; also lets the
+    /// harness register pending allocation pages.
+    pub fn verif_observe<VM: VMBinding>(&self, add_pending: usize) -> (usize, usize, bool) {
+        if add_pending > 0 {
+            GCTriggerPolicy::<VM>::on_pending_allocation(self, add_pending);
+        }
+        (
+            GCTriggerPolicy::<VM>::get_current_heap_size_in_pages(self),
+            GCTriggerPolicy::<VM>::get_max_heap_size_in_pages(self),
+            GCTriggerPolicy::<VM>::can_heap_size_grow(self),
+        )
+    }
+}
+
 impl MemBalancerTrigger {
     fn new(min_heap_pages: usize, max_heap_pages: usize) -> Self {
         Self {
